@@ -1097,6 +1097,22 @@ fn ret_line(case: &Case, s: &Solution, rk: &Ranker, fs_fact: Value, nodes_fact: 
                 }
             }
             let _ = dir;
+            // a run that covered no interval (zero-length run, no accepted step): the continuous solution is the stored
+            // initial state over the whole of its (tiny) span and of the range slack around it
+            if s.t.len() == 1 && s.y.len() == 1 && w <= 1e-12 {
+                for t in [a, b, a - 5e-13, b + 5e-13, 0.5 * (a + b)] {
+                    match catch(|| s.sol(t)) {
+                        Ok(Ok(v)) => {
+                            let y = &s.y[0];
+                            if v.len() != y.len() || v.iter().zip(y.iter()).any(|(p, q)| !((p - q).abs() <= 1e-9 * q.abs().max(1e-300)) && !(p.is_nan() && q.is_nan())) {
+                                sol_at_t_ok = false;
+                                sol_at_t_fail += 1;
+                            }
+                        }
+                        _ => { all_inside_ok = false; }
+                    }
+                }
+            }
             // sol_many over the stored times
             let inside: Vec<f64> = s.t.iter().copied().filter(|t| !beyond_span(*t)).collect();
             let mut batches: Vec<Vec<f64>> = vec![inside.clone(), inside.iter().rev().copied().collect()];
@@ -1139,8 +1155,8 @@ fn ret_line(case: &Case, s: &Solution, rk: &Ranker, fs_fact: Value, nodes_fact: 
             }
             // located to root-finder accuracy in t: along the library's own continuous solution the event function
             // changes sign (or vanishes) within +-1e-9 (1 + |t_e|) of t_e - 500 times the root finder's own tolerance
-            // (2e-12 + 4 eps |t|).  The handler's documented shortcut reports an event AT a step end whose |g| <= 2e-12
-            // without refinement: such events (t_e bit-equal to a reported step end) are accepted on that ground.
+            // (2e-12 + 4 eps |t|).  An event AT a step end where g vanishes exactly (a zero touched without a sign change
+            // counts, as in SciPy) is accepted on that ground; the value of g being small does not make it a root.
             // Only decided where both probes are inside the dense span and all step ends are reported (no t_eval).
             let mut g_brk = true;
             if case.dense && case.t_eval.is_none() && ye.len() == n && n > 0 {
@@ -1149,7 +1165,7 @@ fn ret_line(case: &Case, s: &Solution, rk: &Ranker, fs_fact: Value, nodes_fact: 
                 if let (Ok(Ok(ya)), Ok(Ok(yb))) = (catch(|| s.sol(te - dlt)), catch(|| s.sol(te + dlt))) {
                     let (ga, gb) = (case.problem.event(e, te - dlt, &ya), case.problem.event(e, te + dlt, &yb));
                     let crossing = (ga <= 0.0 && gb >= 0.0) || (ga >= 0.0 && gb <= 0.0);
-                    if ga.is_finite() && gb.is_finite() && !crossing && !(at_end && g.abs() <= 2e-12) { g_brk = false; }
+                    if ga.is_finite() && gb.is_finite() && !crossing && !(at_end && g == 0.0) { g_brk = false; }
                 }
             }
             v.push(json!({"t": tj(te), "g_small": g.abs() <= 1e-6 * gs, "g_brk": g_brk, "ye_dim": ye.len() == n, "ye_sol": ye_sol}));
